@@ -118,3 +118,18 @@ XalanMemMgrs::getDefaultXercesMemMgr()
 
 
 }
+
+
+
+#if defined(APACHE_XALAN_C_VERIF)
+#include <xalanc/Include/XalanVerifProbes.hpp>
+
+extern "C"
+{
+    unsigned long   xalan_verif_counters[XALAN_VERIF_SITE_MAX];
+
+    __thread int    xalan_verif_alloc_site = XALAN_VERIF_SITE_NONE;
+
+    void            (*xalan_verif_probe_cb)(int) = 0;
+}
+#endif
